@@ -126,7 +126,7 @@ def run(prog, rep):
             while "*&" in a[2]:
                 a[2] = a[2].replace("*&", "")
             stmt = canon_full(strip(tr.operand(ex[0][1]["args"][0])))
-            ok = a[0].lstrip("*") == stmt.lstrip("*") and a[1].lstrip("*") == "arg:self" and re.search(r"QueryMatch::nodes_for_capture_index\(&\*?\*?arg:mat, cast\(\*arg:self\.%s\)\)" % idx, a[2]) is not None
+            ok = a[0].lstrip("*") == stmt.lstrip("*") and a[1].lstrip("*") == "arg:self" and re.match(r"^&?\(Try::branch\(Option::ok_or_else\(Iterator::next\(&QueryMatch::nodes_for_capture_index\(&\*?\*?arg:mat, cast\(\*arg:self\.%s\)\)\), " % idx, a[2]) is not None
             # the context object handed to the statement carries it
             ctxs = [st for bb in sorted(body.reachable()) for st in body.blocks[bb]["stmts"] if st["k"] == "assign" and st["rv"]["k"] == "aggregate" and (st["rv"].get("adt") or "").endswith("::ExecutionContext")]
             if ctxs:
@@ -222,6 +222,26 @@ def run(prog, rep):
                         rep.check(pair and both, "E2.x-e", "%s :: %s names both statements #%d" % (f.id, inner[3], ne), sp_str(t["sp"]), "context = (previous statement, this statement)",
                                   "a conflict is reported with `%s`: the two conflicting statements are not both named" % c[:120])
     rep.floor("E2.x-e", ne, 3, "conflict sites in lazy evaluation")
+    # the "previous statement" of a conflict is looked up per (node | edge, attribute name), once per attribute
+    nk = 0
+    for f in prog.fns.values():
+        if f.body is None or f.file != "src/execution/lazy/statements.rs":
+            continue
+        body = f.body
+        tr = None
+        for b, t in body.calls():
+            if is_callee(t, r"HashMap::<K, V, S, A>::insert$"):
+                tr = tr or Tracer(body)
+                if "prev_element_debug_info" not in canon(tr.operand(t["args"][0])):
+                    continue
+                nk += 1
+                key = strip(tr.operand(t["args"][1]))
+                kc = canon_full(key)
+                inloop = any(b in bl for h, bl in natural_loops(body))
+                named = key[0] == "agg" and re.search(r"\.name\)?\}?$|\.name\)", kc) is not None and ".name" in kc and len(key[5]) >= 2
+                rep.check(named and inloop, "E2.x-e", "%s :: previous-writer key" % f.id, sp_str(t["sp"]), "keyed by the element and the attribute's name, recorded for each attribute of the statement",
+                          "the previous writer of an attribute is recorded under `%s`%s: a conflict names the last statement that touched the element, not the one that set this attribute" % (kc[:120], "" if inloop else " once per statement"))
+    rep.floor("E2.x-e", nk, 2, "previous-writer records")
     pc = [f for f in prog.fns.values() if f.trait == "std::convert::From" and f.self_path == "tsg::execution::error::Context" and f.name == "from" and "(tsg::execution::error::StatementContext, tsg::execution::error::StatementContext)" in (f.trait_ref or f.id)]
     if len(pc) == 1:
         f = pc[0]
@@ -267,6 +287,11 @@ def run(prog, rep):
                 ("arg:source_path", "arg:source", "*arg:self.source_location.row", "parser::to_column_range(&*arg:self.source_location)")]
         norm = [tuple(x.replace("Location::to_column_range", "parser::to_column_range") for x in g) for g in got]
         rep.check(norm == want, "E2.x-g", "StatementContext::fmt_pretty", f.loc(), "three excerpts: statement (tsg), stanza (tsg), node (source)", "pretty rendering excerpts %s" % got)
+        fails = e2._failure_blocks(f.body)
+        rets = set(f.body.return_blocks())
+        skipped = [i for i, (b, t) in enumerate(ex) if f.body.reach_from([0], avoid={b} | fails) & rets]
+        rep.check(bool(ex) and not skipped, "E2.x-g", "StatementContext::fmt_pretty :: unconditional", f.loc(), "every successful rendering of a statement context shows all its excerpts",
+                  "a statement context can be rendered without %d of its excerpts (an early return / a condition on another context): the stanza or the matched node of that execution is not cited" % len(skipped))
     else:
         rep.violation("E2.x-g", "anchor-lost:fmt_pretty", "", "not found")
     # the excerpt shows the line that the row counts: rows (parser and tree-sitter alike) count '\n' only
